@@ -459,6 +459,71 @@ __CPROVER_assigns()
                   harness=H("  int in_i = nondet_int(), in_j = nondet_int(); nb_n = nondet_ulong(); g_probe = nondet_ulong();\n  for (int k = 0; k < NB; k++) { nb[k].i = nondet_int(); nb[k].d = nondet_float(); }", "sparse_lookup(in_i, in_j);"),
                   desc="Sparse_distance_matrix::operator()(i, j): on a neighbour list sorted by vertex (each neighbour once, distances finite and >= 0, zero allowed), returns the stored distance of the edge {i, j} when there is one - including a zero-length edge - and +infinity otherwise"))
 
+def assemble_units(U):
+    """Persistent_cohomology::assemble_columns_to_reduce: from the (dim-1)... simplices of the current round it builds
+    (a) the list of all simplices of the next dimension (kept only while dim < dim_max) and (b) the columns to reduce
+    (cofacets that are neither in a zero apparent pair nor already a pivot), sorted.  The coboundary enumerator, the
+    apparent-pair test and the pivot map are ghost tables; vectors are ghost logs; std::sort is trusted."""
+    NSI, KC = 3, 3
+    G = ND + f"""
+typedef float value_t; typedef signed char dimension_t; typedef unsigned long simplex_t;
+#define NSI {NSI}
+#define KC {KC}
+typedef struct {{ value_t diameter; simplex_t index; }} diameter_simplex_t;
+typedef struct {{ bool has; value_t diam; simplex_t id; }} vp_opt;      /* std::optional<diameter_entry_t> */
+dimension_t dim_max;
+/* the round's simplices and, per simplex, the cofacets its enumerator yields (ghost) */
+diameter_simplex_t g_simp[NSI * KC]; size_t g_nsimp;
+unsigned g_ncof[NSI]; simplex_t g_cof[NSI][KC]; value_t g_cofd[NSI][KC];
+bool g_app[16], g_piv[16];                   /* is_in_zero_apparent_pair / already a pivot, by cofacet id (< 16) */
+size_t g_cur; unsigned g_pos; dimension_t g_set_dim;
+diameter_simplex_t g_next[NSI * KC]; size_t g_nnext; diameter_simplex_t g_cols[NSI * KC + 2]; size_t g_ncols; unsigned g_sort_calls; size_t g_sort_n;
+static simplex_t make_entry_id(diameter_simplex_t s) {{ return s.index; }}
+static void cof_set_simplex(simplex_t id, dimension_t d) {{ __CPROVER_assert(id < NSI, "simplex of the round"); g_cur = id; g_pos = 0; g_set_dim = d; }}
+static vp_opt cof_next(bool all_cofacets) {{ vp_opt r; __CPROVER_assert(!all_cofacets, "only the cofacets with a larger new vertex"); r.has = g_pos < g_ncof[g_cur]; r.diam = r.has ? g_cofd[g_cur][g_pos] : 0; r.id = r.has ? g_cof[g_cur][g_pos] : 0; if (r.has) g_pos++; return r; }}
+static void next_push(value_t d, simplex_t i) {{ __CPROVER_assert(g_nnext < NSI * KC, "log"); g_next[g_nnext].diameter = d; g_next[g_nnext].index = i; g_nnext++; }}
+static void cols_push(value_t d, simplex_t i) {{ __CPROVER_assert(g_ncols < NSI * KC + 2, "log"); g_cols[g_ncols].diameter = d; g_cols[g_ncols].index = i; g_ncols++; }}
+static void simplices_swap_next(void) {{ for (size_t k = 0; k < NSI * KC; k++) {{ diameter_simplex_t t = g_simp[k]; g_simp[k] = g_next[k]; g_next[k] = t; }} size_t t = g_nsimp; g_nsimp = g_nnext; g_nnext = t; }}
+static void sort_cols(void) {{ g_sort_calls++; g_sort_n = g_ncols; }}   /* std::sort(begin, end, Greater_diameter_or_smaller_index): permutes, trusted */
+/* specification: the p-th cofacet over all simplices of the round, in order; and the p-th one that becomes a column */
+static bool x_nth(size_t p, bool only_cols, simplex_t* id, value_t* d) {{ size_t c = 0; bool f = false;
+  for (size_t s = 0; s < NSI; s++) for (unsigned k = 0; k < KC; k++) if (s < g_nsimp0 && k < g_ncof[s] && (!only_cols || (!g_app[g_cof[s][k]] && !g_piv[g_cof[s][k]]))) {{ if (c == p && !f) {{ *id = g_cof[s][k]; *d = g_cofd[s][k]; f = true; }} c++; }}
+  return f; }}
+static size_t x_total(bool only_cols) {{ size_t c = 0; for (size_t s = 0; s < NSI; s++) for (unsigned k = 0; k < KC; k++) if (s < g_nsimp0 && k < g_ncof[s] && (!only_cols || (!g_app[g_cof[s][k]] && !g_piv[g_cof[s][k]]))) c++; return c; }}
+static bool tables_ok(void) {{ bool ok = g_nsimp <= NSI; for (size_t s = 0; s < NSI; s++) {{ ok = ok && g_ncof[s] <= KC && g_simp[s].index == s; for (unsigned k = 0; k < KC; k++) ok = ok && g_cof[s][k] < 16 && g_cofd[s][k] == g_cofd[s][k]; }} return ok; }}
+static bool P_next(size_t p) {{ simplex_t id = 0; value_t d = 0; bool f = x_nth(p, false, &id, &d); return !f || (p < g_nsimp && g_simp[p].index == id && g_simp[p].diameter == d); }}
+static bool P_cols(size_t p) {{ simplex_t id = 0; value_t d = 0; bool f = x_nth(p, true, &id, &d); return !f || (p < g_ncols && g_cols[p].index == id && g_cols[p].diameter == d); }}
+"""
+    G = G.replace("diameter_simplex_t g_simp[NSI * KC]; size_t g_nsimp;", "diameter_simplex_t g_simp[NSI * KC]; size_t g_nsimp; size_t g_nsimp0; size_t g_probe;")
+    con = """
+__CPROVER_requires(tables_ok() && g_nsimp0 == g_nsimp && g_nnext == 0 && g_ncols <= 2 && g_sort_calls == 0 && dim >= 1 && dim <= dim_max)
+__CPROVER_ensures(dim < dim_max ? (g_nsimp == x_total(false) && P_next(g_probe)) : g_nsimp == g_nsimp0)
+__CPROVER_ensures(g_ncols == x_total(true) && P_cols(g_probe))
+__CPROVER_ensures(g_sort_calls == 1 && g_sort_n == g_ncols)
+__CPROVER_assigns(g_simp, g_nsimp, g_next, g_nnext, g_cols, g_ncols, g_cur, g_pos, g_set_dim, g_sort_calls, g_sort_n)
+"""
+    subs = [(r"columns_to_reduce\.clear\(\);", "g_ncols = 0;", 0), (r"std::vector<diameter_simplex_t> next_simplices;", ""),
+            (r"for \(diameter_simplex_t& (\w+) : simplices\) \{", r"for (size_t vp_k = 0; vp_k < g_nsimp; vp_k++) { diameter_simplex_t \1 = g_simp[vp_k];"),
+            (r"cofacets2\.set_simplex\(filt\.make_diameter_entry\((\w+), 1\), ([^;]*)\);", r"cof_set_simplex(make_entry_id(\1), \2);"),
+            (r"std::optional<diameter_entry_t> (\w+) = cofacets2\.next\(([^;]*)\);", r"vp_opt \1 = cof_next(\2);"),
+            (r"if \(!(\w+)\) break;", r"if (!\1.has) break;"),
+            (r"next_simplices\.push_back\(\{get_diameter\(\*(\w+)\), filt\.get_index\(\*\1\)\}\);", r"next_push(\1.diam, \1.id);"),
+            (r"columns_to_reduce\.push_back\(\{get_diameter\(\*(\w+)\), filt\.get_index\(\*\1\)\}\);", r"cols_push(\1.diam, \1.id);"),
+            (r"is_in_zero_apparent_pair\(\*(\w+), dim\)", r"g_app[\1.id]"),
+            (r"\(pivot_column_index\.find\(get_entry\(\*(\w+)\)\) == pivot_column_index\.end\(\)\)", r"(!g_piv[\1.id])"),
+            (r"simplices\.swap\(next_simplices\);", "simplices_swap_next();"),
+            (r"std::sort\(columns_to_reduce\.begin\(\), columns_to_reduce\.end\(\),\s*Greater_diameter_or_smaller_index<diameter_simplex_t>\(filt\)\);", "sort_cols();")]
+    fn = Fn(RP, r"void assemble_columns_to_reduce\(std::vector<diameter_simplex_t>& simplices,\s*std::vector<diameter_simplex_t>& columns_to_reduce,\s*entry_hash_map& pivot_column_index, dimension_t dim\)",
+            "assemble_columns_to_reduce", con,
+            sig_subs=[(r"\(std::vector<diameter_simplex_t>& simplices,\s*std::vector<diameter_simplex_t>& columns_to_reduce,\s*entry_hash_map& pivot_column_index, dimension_t dim\)", "(dimension_t dim)")],
+            subs=subs, canary=(r"if \(dim < dim_max\) simplices_swap_next\(\);", "if (dim <= dim_max) simplices_swap_next();"))
+    U.append(Unit("reduction.assemble_columns_to_reduce", "C11", [fn], enforce="assemble_columns_to_reduce", globals_=G, unwind=NSI * KC + 3, route="B",
+                  bound=f"at most {NSI} simplices in the round, at most {KC} cofacets each; ids, diameters, apparent-pair and pivot tables, dim and dim_max symbolic",
+                  inputs=["in_dim", "dim_max", "g_nsimp", "g_ncof", "g_probe"], replay=replay_by_native_search,
+                  harness=H("  dimension_t in_dim = (dimension_t)nondet_int(); dim_max = (dimension_t)nondet_int(); g_nsimp = nondet_ulong(); g_nsimp0 = g_nsimp; g_probe = nondet_ulong(); g_nnext = 0; g_ncols = nondet_ulong(); g_sort_calls = 0;\n"
+                            "  for (int s = 0; s < NSI; s++) { g_ncof[s] = nondet_uint(); g_simp[s].index = s; }", "assemble_columns_to_reduce(in_dim);"),
+                  desc="assemble_columns_to_reduce: while dim < dim_max the round's simplices are replaced by ALL the cofacets the enumerators yield, in order (they are the next round's simplices - otherwise they are left alone); the columns to reduce are exactly the cofacets that are neither in a zero apparent pair nor already pivots, previous content discarded, sorted once as a whole"))
+
 def enumerator_units(U):
     """dense Simplex_coboundary_enumerator_::next(): filters the raw cofacets by the threshold.  next_raw (the
     enumeration itself) is a ghost stub that yields an arbitrary finite sequence of candidates."""
@@ -689,6 +754,19 @@ __CPROVER_assigns(parent, rank)
                   desc="Union_find::link: afterwards x and y have the same representative (one of the two old ones) and every other class is untouched"))
 
 
+NATIVE_RESULTS = []
+
+
+def replay_by_native_search(unit, failure):
+    """A refuted obligation over ghost tables has no input-level counterexample of its own; the failing input is
+    searched for by the bounded native stand-in of the same run (ripser_auto vs the Rips barcode through the simplex tree)."""
+    for n in NATIVE_RESULTS:
+        if n["unit"] == "native.ripser_vs_rips" and n.get("failures"):
+            c = n["failures"][0]
+            return {"reproduced": True, "detail": f"native.ripser_vs_rips on the real classes: {c.get('case')}", "native_case": c}
+    return {"reproduced": None, "detail": "no swept input shows a difference on the real classes"}
+
+
 def units(tier):
     U = []
     union_find_units(U)
@@ -706,6 +784,7 @@ def units(tier):
     fake128_units(U)
     matrix_units(U)
     sparse_lookup_units(U)
+    assemble_units(U)
     return U
 
 
